@@ -15,10 +15,10 @@ RULE = ('documents: 3 tables, each with a Ref column R and a RefList column L wh
         'another table, re-defined, or never defined), positive, dangling and 0 ids and alt text; plus direct calls of '
         'ActionSummary.update_new_rows_map/translate_new_row_ids on random argument lists; a bundle is non-trivial '
         'when a temporary id defined by an add is used later in the bundle or an unresolved negative id occurs. '
-        'Requests with explicit id 0, repeated explicit ids or explicit ids after automatic slots are left to C27.')
+        'Add requests also hold explicit ids in any position and, rarely, 0 or a repeated explicit id (rejected).')
 TRUSTED = ['Model/TempIds.v (hand-written): compared with the running engine on every generated bundle '
            '(retValues, row ids and R/L cells of every table) and with ActionSummary directly',
-           'Model/RowIds.fill for the ids an add allocates (proved equal to the loop translated from the source, C27)',
+           'Model/RowIds.alloc for the ids an add allocates (proved equal to the loops translated from the source, C27)',
            'cell conversion (usertypes convert, C22) is applied by the harness for the small vocabulary used: '
            'int -> int, None -> 0 / None, [] -> None, text -> alt text',
            'engine rollback after an exception (C04) is observed on the implementation, not modelled']
@@ -117,18 +117,19 @@ def gen_bundle(rng, sch, doc):
     if k < 0.45:
       n = rng.choice([1, 1, 2, 3])
       ids_new = []
-      explicit_allowed = True
       for _ in range(n):
         j = rng.random()
-        if j < 0.08 and explicit_allowed:
+        if j < 0.08:
           nexp[0] += 1
-          ids_new.append(40 + 10 * nexp[0])                 # explicit, fresh, never where autos land
-        elif j < 0.12 and explicit_allowed and existing:
+          ids_new.append(rng.choice([40 + 10 * nexp[0], rng.randint(1, 12)]))   # explicit: fresh, or wherever it lands
+        elif j < 0.11 and existing:
           ids_new.append(rng.choice(existing))               # explicit, existing: the bundle must be rejected
+        elif j < 0.12:
+          ids_new.append(rng.choice([0] + [x for x in ids_new if isinstance(x, int) and x > 0]))   # 0 or a repeat
         elif j < 0.30:
-          ids_new.append(None); explicit_allowed = False
+          ids_new.append(None)
         else:
-          ids_new.append(-rng.randint(1, 4)); explicit_allowed = False
+          ids_new.append(-rng.randint(1, 4))
       R, L = vals(n, 'add')
       acts.append({'op': 'add', 't': t, 'ids': ids_new, 'R': R, 'L': L})
       for x in ids_new:
@@ -645,5 +646,5 @@ LEVEL_TEXT = ('Kernel-checked: after update_new_rows_map a temporary id translat
               'RefList values are translated per target table and any negative id left is rejected; in the bundle '
               'interpreter an update/removal/reference naming a temporary id acts exactly as one naming the allocated row.')
 LEVEL_NOTE = ('Hand-written model (Model/TempIds.v) tied to the code by differential bundles on the real engine and direct '
-              'calls of ActionSummary each run; allocation uses Model/RowIds.fill (translated loop, C27). "No trace" after '
+              'calls of ActionSummary each run; allocation uses Model/RowIds.alloc (translated loops, C27). "No trace" after '
               'a rejected bundle is the engine rollback (C04), observed on the implementation, not modelled.')
